@@ -1,0 +1,28 @@
+"""Observation taps for external verification harnesses.
+
+Disabled unless the environment variable WELL_ID_DLISWRITER_VERIF is set to '1' at import time.
+When disabled, the two call sites (LogicalRecordBytes.make_segments, ByteWriter.write_bytes) only evaluate
+a module-level boolean; nothing else is executed.
+"""
+
+import os
+from typing import Callable
+
+ENABLED: bool = os.environ.get('WELL_ID_DLISWRITER_VERIF', '') == '1'
+
+lr_sinks: list[Callable] = []       #: called with (is_eflr, lr_type_struct, body_bytes, max_n_bytes)
+flush_sinks: list[Callable] = []    #: called with (filename, total_size)
+
+
+def lr_tap(is_eflr: bool, lr_type_struct: bytes, body: bytes, max_n_bytes: int) -> None:
+    """Report a logical record body entering segmentation."""
+
+    for sink in lr_sinks:
+        sink(is_eflr, lr_type_struct, body, max_n_bytes)
+
+
+def flush_tap(filename: object, total_size: int) -> None:
+    """Report that a physical write to the output file has completed."""
+
+    for sink in flush_sinks:
+        sink(filename, total_size)
